@@ -178,5 +178,16 @@ PROPS["C17"] = dict(
     assumptions=["encoding/json on the undecorated text defines the meaning of the document"],
 )
 
+PROPS["C18"] = dict(
+    pkg="c18", level="exploration", race=True,
+    rule="generated histories of N goroutines creating/aliasing contexts and logging through every level/function with every context kind, against a writer that records each Write call; plus an id-counter stress; "
+         "race detector on; per-check rules under coverage.checks",
+    quick=dict(timeout=900), thorough=dict(shards=8, timeout=3000),
+    technique="property-based testing (rapid) of concurrent histories with an invariant over the recorded write calls (uniqueness, one whole line per call, pid/cid/message), Go race detector, stress repetition",
+    level_text="Goroutine interleavings are those the Go scheduler produces under 1..32 goroutines released together (exploration + race detector), not an enumeration of schedules.",
+    level_note="Connection ids are observed through the logged [cid] field (the context key is unexported). Messages contain no newline; '%' only reaches the f-variants as an argument.",
+    assumptions=["a data race report or a crash of the test process counts as a violation", "the writer installed with Switch is goroutine-safe (log.Logger serialises writes)"],
+)
+
 NOT_APPLICABLE = {}
 HOOK_COMMITS = []
